@@ -11,7 +11,8 @@ LEVEL_TEXT = ("Playback.tla defines list and get over an integer (ms) timeline f
               "and asks the real playback server (child process) every window over HTTP; the returned fMP4 is parsed with mediacommon; "
               "TLC evaluates the statement's formulas on every answer (TracePlayback.tla), expectations computed from the recorded media")
 LEVEL_NOTE = ("bounded: <= 2 runs, <= 3 segments, <= 2 (thorough 3) parts per segment, 1-2 frames per part, tracks v / v+a / a, gaps 0 and "
-              "250 ms; 40 ms video and 30 ms audio cadence; windows at segment/run boundaries and one sample boundary, -1/0/+1 ms")
+              "250 ms; 40 ms video and 30 ms audio cadence; record path layouts chronological / day-first / time-first with every history "
+              "dated across midnight of a month end (quick: layouts rotate over the histories, thorough: all combinations); windows at segment/run boundaries and one sample boundary, -1/0/+1 ms")
 TECHNIQUE = "TLA+ model checking (TLC) + generated histories replayed into the real recorder/playback server, verdicts by TLC trace validation"
 
 CFG = """SPECIFICATION Spec
@@ -22,6 +23,8 @@ CONSTANTS
   MaxSegs = 3
   MaxParts = %d
   SPPs = {%s}
+  Layouts = {"chrono", "dayfirst", "timefirst"}
+  CrossLayouts = %s
 INVARIANTS SplitInvisible SpecSane
 INVARIANT EmitCases
 CHECK_DEADLOCK FALSE
@@ -46,9 +49,9 @@ def wclass(runs, s, e):
 
 def run(ctx):
     d = ctx.specdir()
-    tracks, parts, spps = ctx.pick(('"va", "a"', 2, "2"), ('"v", "va", "a"', 3, "1, 2"))
+    tracks, parts, spps, cross = ctx.pick(('"va", "a"', 2, "2", "FALSE"), ('"v", "va", "a"', 3, "1, 2", "TRUE"))
     with open(d + "/Playback_run.cfg", "w") as fh:
-        fh.write(CFG % (tracks, parts, spps))
+        fh.write(CFG % (tracks, parts, spps, cross))
     import time
     t0 = time.time()
     r = vf.mc(ctx, "Playback", "Playback_run.cfg", workers=4, timeout=1500)
@@ -78,7 +81,8 @@ def run(ctx):
         drift += len(tv.tagged("DRIFT"))
         for b in tv.tagged("BAD"):
             rec = part[b["l"] - 1]
-            key = {"op": b["op"], "monitor": b["monitor"]}
+            key = {"op": b["op"], "monitor": b["monitor"], "layout": rec["p"]["layout"],
+                   "name_order_is_time_order": rec.get("nameOrderIsTimeOrder", True)}
             detail = ""
             if b["op"] == "list":
                 o = rec["lists"][b["i"] - 1]
